@@ -84,6 +84,34 @@ pub trait Comp: Component + Send + Sync + Default + 'static {
         None
     }
     fn set_emit(_s: &mut WriteStorage<Self>, _b: bool) {}
+    /// The non-lending mutable restricted join `(&entities, &mut storage.restrict_mut()).join()`; `None` for storages
+    /// that do not offer it (the deref-flagged wrapper has no shared mutable access).
+    fn shared_rjoin(_world: &World, _acts: &[RAct]) -> Option<String> {
+        None
+    }
+}
+
+macro_rules! shared_rjoin_fn {
+    () => {
+        fn shared_rjoin(world: &World, acts: &[RAct]) -> Option<String> {
+            let mut out = String::from("items");
+            let mut acts_it = acts.iter();
+            let ents = world.entities();
+            let mut st = world.write_storage::<Self>();
+            let mut restricted = st.restrict_mut();
+            // indices are taken from the joined entities, not from the mask
+            for (e, mut item) in (&ents, &mut restricted).join() {
+                let id = e.id();
+                let act = acts_it.next().cloned().unwrap_or(RAct::Skip);
+                match act {
+                    RAct::Get => write!(out, " {}:v={}", id, item.get().val()).unwrap(),
+                    RAct::GetMut { derefs, write } => { let old = item.get().val(); apply_access::<Self, _>(item.get_mut(), derefs, write); write!(out, " {}:v={}", id, old).unwrap(); }
+                    _ => write!(out, " {}:-", id).unwrap(),
+                }
+            }
+            Some(out)
+        }
+    };
 }
 
 macro_rules! comp {
@@ -152,6 +180,7 @@ comp!(CVec, 0, VecStorage<Self>, 0,
         }
         out
     }
+    shared_rjoin_fn!();
 );
 comp!(CDense, 1, DenseVecStorage<Self>, 0,
     fn slice_view(s: &ReadStorage<Self>) -> String {
@@ -161,6 +190,7 @@ comp!(CDense, 1, DenseVecStorage<Self>, 0,
         for x in v { write!(out, " {}", x).unwrap(); }
         out
     }
+    shared_rjoin_fn!();
 );
 comp!(CDvec, 2, DefaultVecStorage<Self>, 0,
     fn slice_view(s: &ReadStorage<Self>) -> String {
@@ -180,12 +210,13 @@ comp!(CDvec, 2, DefaultVecStorage<Self>, 0,
         }
         out
     }
+    shared_rjoin_fn!();
 );
-comp!(CHash, 3, HashMapStorage<Self>, 0,);
-comp!(CBTree, 4, BTreeStorage<Self>, 0,);
-comp!(CFVec, 6, FlaggedStorage<Self, VecStorage<Self>>, 1, tracked_fns!(););
-comp!(CFDense, 7, FlaggedStorage<Self, DenseVecStorage<Self>>, 1, tracked_fns!(););
-comp!(CFHash, 8, FlaggedStorage<Self, HashMapStorage<Self>>, 1, tracked_fns!(););
+comp!(CHash, 3, HashMapStorage<Self>, 0, shared_rjoin_fn!(););
+comp!(CBTree, 4, BTreeStorage<Self>, 0, shared_rjoin_fn!(););
+comp!(CFVec, 6, FlaggedStorage<Self, VecStorage<Self>>, 1, tracked_fns!(); shared_rjoin_fn!(););
+comp!(CFDense, 7, FlaggedStorage<Self, DenseVecStorage<Self>>, 1, tracked_fns!(); shared_rjoin_fn!(););
+comp!(CFHash, 8, FlaggedStorage<Self, HashMapStorage<Self>>, 1, tracked_fns!(); shared_rjoin_fn!(););
 comp!(CDFVec, 9, DerefFlaggedStorage<Self, VecStorage<Self>>, 2, tracked_fns!(););
 comp!(CDFDense, 10, DerefFlaggedStorage<Self, DenseVecStorage<Self>>, 2, tracked_fns!(););
 comp!(CDFBTree, 11, DerefFlaggedStorage<Self, BTreeStorage<Self>>, 2, tracked_fns!(););
@@ -207,6 +238,7 @@ impl Comp for CNull {
     fn new(_: i64) -> Self { CNull }
     fn val(&self) -> i64 { 0 }
     fn set(&mut self, _: i64) {}
+    shared_rjoin_fn!();
 }
 
 pub const NUM_KINDS: usize = 12;
@@ -283,7 +315,9 @@ pub enum Op {
     LazyRem(usize, usize),
     LazyCreate(Vec<(usize, i64)>),
     LazyExec(Vec<Op>),
-    RJoin { k: usize, mutable: bool, acts: Vec<RAct> },
+    /// `shared`: mutable restricted join through `.join()` (items are `PairedStorageWriteShared`: get / get_mut only)
+    /// instead of `.lend_join()` (`PairedStorageWriteExclusive`); printed as mode `x`.
+    RJoin { k: usize, mutable: bool, shared: bool, acts: Vec<RAct> },
     DropWorld,
     Fault(u64),
     Dump,
@@ -355,8 +389,8 @@ pub fn show_op(op: &Op) -> String {
             }
             s.push_str(" ]");
         }
-        Op::RJoin { k, mutable, acts } => {
-            write!(s, "rjoin {} {}", k, if *mutable { "m" } else { "s" }).unwrap();
+        Op::RJoin { k, mutable, shared, acts } => {
+            write!(s, "rjoin {} {}", k, if *mutable { if *shared { "x" } else { "m" } } else { "s" }).unwrap();
             for a in acts {
                 match a {
                     RAct::Skip => s.push_str(" skip"),
@@ -463,7 +497,8 @@ pub fn parse_ops(ts: &[&str]) -> Option<Op> {
                     _ => return None,
                 });
             }
-            Op::RJoin { k: k.parse().ok()?, mutable: *m == "m", acts: v }
+            if *m == "x" && v.iter().any(|a| matches!(a, RAct::GetOther(_) | RAct::GetOtherMut { .. })) { return None; }
+            Op::RJoin { k: k.parse().ok()?, mutable: *m == "m" || *m == "x", shared: *m == "x", acts: v }
         }
         ["drop_world"] => Op::DropWorld,
         ["fault", n] => Op::Fault(n.parse().ok()?),
@@ -599,6 +634,14 @@ fn exec_inner(world: &mut World, ctx: &Shared, op: &Op) -> String {
                 match path {
                     0 => world.register::<T>(),
                     1 => world.register_with_storage::<_, T>(Default::default),
+                    // the storage is first put into the world as a plain resource (unknown to the purge table), then made
+                    // known by system-data setup
+                    3 => {
+                        if !world.has_value::<specs::storage::MaskedStorage<T>>() {
+                            world.insert(specs::storage::MaskedStorage::<T>::new(Default::default()));
+                        }
+                        if *k % 2 == 0 { <WriteStorage<T> as SystemData>::setup(world) } else { <ReadStorage<T> as SystemData>::setup(world) }
+                    }
                     _ => { if *k % 2 == 0 { <ReadStorage<T> as SystemData>::setup(world) } else { <WriteStorage<T> as SystemData>::setup(world) } }
                 }
                 let mut c = ctx.lock().unwrap();
@@ -785,12 +828,15 @@ fn exec_inner(world: &mut World, ctx: &Shared, op: &Op) -> String {
             });
             format!("q {}", tag)
         }
-        Op::RJoin { k, mutable, acts } => {
+        Op::RJoin { k, mutable, shared, acts } => {
             if !is_reg(ctx, *k) { return "nostore".into(); }
             with_kind!(*k, T => {
                 let mut out = String::from("items");
                 let mut acts_it = acts.iter();
-                if *mutable {
+                if *mutable && *shared && T::shared_rjoin(world, &[]).is_some() {
+                    // (the probe call above runs an all-skip join: no access, no event)
+                    return T::shared_rjoin(world, acts).unwrap();
+                } else if *mutable {
                     let mut st = world.write_storage::<T>();
                     let ids = mask_ids_w(&st);
                     let mut restricted = st.restrict_mut();
@@ -925,9 +971,25 @@ fn emit_line(out: &mut String, op: &Op, r: &(String, Vec<String>, Vec<i64>), led
     for l in &r.1 { out.push_str(l); out.push('\n'); }
 }
 
+/// `VH_EAGER=1`: every top-level op is written to stdout BEFORE it is executed, so that the transcript of a process
+/// that dies inside an op (abort, segmentation fault) ends with the script that killed it.
+fn eager() -> bool {
+    static E: std::sync::OnceLock<bool> = std::sync::OnceLock::new();
+    *E.get_or_init(|| std::env::var("VH_EAGER").map(|v| v == "1").unwrap_or(false))
+}
+
 pub fn run_script(ops: &[Op], cfg: RunCfg, rng: &mut Rng, out: &mut String) {
     let mut ex = Exec::new();
     for op in ops {
+        if eager() {
+            use std::io::Write as _;
+            let so = std::io::stdout();
+            let mut l = so.lock();
+            l.write_all(out.as_bytes()).unwrap();
+            out.clear();
+            writeln!(l, "# next: {}", show_op(op)).unwrap();
+            l.flush().unwrap();
+        }
         let r = ex.exec(op);
         emit_line(out, op, &r, cfg.ledger);
         if is_mutating(op) && ex.world.is_some() && r.0 != "panic" {
@@ -1030,10 +1092,10 @@ fn gen_simple_store_op(rng: &mut Rng, p: &StoreProfile, nlog: &mut usize, val: &
     let ws: [u32; 31] = [
         8, 6, 3, 10, 6, 4, 6, 3, 3, 3, // createw now, createw atomic, has, ins, rem, get, getmut, entry_or, entry_rep, entry_rem
         3, 1, 1, 1, if p.clear { 1 } else { 0 }, 2, 2, // mut_or_default, count, empty, mask, clear, drain, slice
-        if p.emit_toggle { 1 } else { 0 }, 2, // emit, events
+        if p.emit_toggle { 3 } else { 0 }, 2, // emit, events
         6, 4, 2, 4, // del_now, del_atomic, del_batch, maintain
         if p.lazy { 3 } else { 0 }, if p.lazy { 1 } else { 0 }, if p.lazy { 2 } else { 0 }, if p.lazy { 2 } else { 0 }, if p.lazy && depth < 2 { 2 } else { 0 }, // lazy_ins, lazy_ins_all, lazy_rem, lazy_create, lazy_exec
-        if p.rjoin { 3 } else { 0 }, 1, 1, // rjoin, del_all, create_iter
+        if p.rjoin { if p.emit_toggle { 9 } else { 3 } } else { 0 }, 1, 1, // rjoin, del_all, create_iter
     ];
     let churn_ws: [u32; 31] = [
         if *nlog < 5 { 6 } else { 1 }, if *nlog < 5 { 2 } else { 0 }, 2, 14, 12, 8, 4, 4, 4, 6,
@@ -1085,14 +1147,15 @@ fn gen_simple_store_op(rng: &mut Rng, p: &StoreProfile, nlog: &mut usize, val: &
         28 => {
             let n = rng.range(1, 6) as usize;
             let mutable = rng.chance(2, 3);
-            let acts = (0..n).map(|_| match rng.below(5) {
+            let shared = mutable && rng.chance(2, 5);
+            let acts = (0..n).map(|_| match if shared { rng.below(3) } else { rng.below(5) } {
                 0 => RAct::Skip,
                 1 => RAct::Get,
                 2 => { let (derefs, write) = gen_dw(rng, val, null); RAct::GetMut { derefs, write } }
                 3 => RAct::GetOther(if rng.chance(1, 2) { rng.below((*nlog).max(1) as u64) as usize } else { pick_slot(rng, *nlog) }),
                 _ => { let (derefs, write) = gen_dw(rng, val, null); RAct::GetOtherMut { h: if rng.chance(1, 2) { rng.below((*nlog).max(1) as u64) as usize } else { pick_slot(rng, *nlog) }, derefs, write } }
             }).collect();
-            Op::RJoin { k, mutable, acts }
+            Op::RJoin { k, mutable, shared, acts }
         }
         29 => Op::DelAll,
         _ => { let n = rng.range(1, 3) as usize; *nlog += n; Op::CreateIter { atomic: rng.chance(1, 2), n } }
@@ -1106,7 +1169,7 @@ pub fn gen_store_script(rng: &mut Rng, len: usize, p: &StoreProfile) -> Vec<Op> 
     let mut val = 0i64;
     let mut late: Vec<usize> = Vec::new();
     for &k in &p.kinds {
-        if rng.chance(1, 6) { late.push(k); } else { ops.push(Op::Reg(k, rng.below(3) as u8)); }
+        if rng.chance(1, 6) { late.push(k); } else { ops.push(Op::Reg(k, rng.below(4) as u8)); }
     }
     if p.far_apart {
         // occupy far-apart indices: create many, keep a few (63, 64, 4095, 4096, …), delete none
@@ -1117,7 +1180,7 @@ pub fn gen_store_script(rng: &mut Rng, len: usize, p: &StoreProfile) -> Vec<Op> 
     let mut p2 = p.clone();
     for i in 0..len {
         if !late.is_empty() && i == len / 3 {
-            for k in late.drain(..) { ops.push(Op::Reg(k, rng.below(3) as u8)); }
+            for k in late.drain(..) { ops.push(Op::Reg(k, rng.below(4) as u8)); }
         }
         p2.kinds = p.kinds.iter().cloned().filter(|k| !late.contains(k)).collect();
         if p2.kinds.is_empty() { p2.kinds = p.kinds.clone(); }
@@ -1169,8 +1232,8 @@ pub fn random_profile(rng: &mut Rng, focus: &str) -> StoreProfile {
     StoreProfile {
         kinds,
         lazy: focus != "fault" && focus != "churn" && focus != "faultchurn" && (focus == "lazy" || rng.chance(1, 3)),
-        rjoin: focus == "rjoin" || (focus != "fault" && focus != "faultchurn" && rng.chance(1, 4)),
-        emit_toggle: focus == "tracked" && rng.chance(1, 3),
+        rjoin: focus == "rjoin" || (focus == "tracked" && rng.chance(1, 2)) || (focus != "fault" && focus != "faultchurn" && rng.chance(1, 4)),
+        emit_toggle: focus == "tracked" && rng.chance(1, 2),
         clear: focus == "churn" || focus == "faultchurn" || (focus != "tracked" && rng.chance(1, 2)),
         far_apart: focus == "far" || rng.chance(1, 30),
         drop_world: focus == "ledger" || focus == "fault" || focus == "faultchurn" || rng.chance(1, 4),
